@@ -6,7 +6,14 @@ and inclusion bounds), independent of the Lean model:
   inverter-bounds : a non-zero set-point lies in [excl, incl] of its inverter on the request's side;
   group-bounds    : a non-zero group total lies in [excl, incl] of the aggregated battery bounds;
   no-headroom     : a group whose aggregated SoC is at/beyond its limit in the requested direction gets zero.
-Correspondence: shared with C01 (same driver, same generators).
+History: the `BatteryManager` keeps ONE `BatteryDistributionAlgorithm`; sequences of 2-4 `distribute_power` calls on one
+instance are generated (between calls only the batteries / only the inverters / both / nothing publish new data —
+derated or widened bounds, moved exclusion zones, SoC to a limit; an unchanged component keeps its timestamp; the
+next request goes in the same or the opposite direction) and EVERY call is checked with the three clauses against
+the data given to THAT call.  A case with a `history` key = the last call of such a sequence (replayable).
+Correspondence: shared with C01 (same driver, same generators); the Lean model is stateless (`C02_history_free`,
+tied to the source by `Extracted.Dist.perCallState = []`), so each call of a sequence is compared with the model
+of that call alone.
 """
 from __future__ import annotations
 
